@@ -6,7 +6,7 @@ the expected order of witness leaves (public in declaration order, then secret) 
 'conflicting visibility' error.  Output: /verif/src/c07shapes/shapes_gen.go (deterministic)."""
 import itertools, sys
 
-LEAVES = ['V', 'A2', 'SL2', 'SL0']          # Variable, [2]Variable, []Variable len 2, []Variable len 0
+LEAVES = ['V', 'A2', 'SL2', 'SL0', 'SLSL', 'SLA2', 'A2A2']   # Variable, [2]Variable, []Variable len 2 / 0, [][]Variable 2x2, [][2]Variable len 2, [2][2]Variable
 TAGS_LEAF = ['', 'nm', ',public', ',secret', ',inherit', '-', 'nm,public']
 TAGS_NEST = ['', ',public', ',secret', '-']
 # inner struct bodies (list of (kind, tag)); kind may itself be a nested struct ('N', wrapper, body)
@@ -30,6 +30,8 @@ def field_variants(reduced):
         for t in (TAGS_LEAF if not reduced else ['', ',public', '-']):
             if t == ',inherit':
                 continue  # a top-level element has no parent to inherit from (outside the documented domain)
+            if reduced and (l == 'A2A2' or (l in ('SLSL', 'SLA2') and t == '-')):
+                continue
             out.append((l, t))
     for w in WRAP:
         for bi, body in enumerate(INNER):
@@ -121,11 +123,16 @@ class Gen:
                 if self.walk(sub, body, vis, subpath, sub_leaves if not omitted else [], alloc, st, declare) and not omitted:
                     conflict = True
             else:
-                gotype = {'V': 'frontend.Variable', 'A2': '[2]frontend.Variable', 'SL2': '[]frontend.Variable', 'SL0': '[]frontend.Variable'}[kind]
+                gotype = {'V': 'frontend.Variable', 'A2': '[2]frontend.Variable', 'SL2': '[]frontend.Variable', 'SL0': '[]frontend.Variable',
+                          'SLSL': '[][]frontend.Variable', 'SLA2': '[][2]frontend.Variable', 'A2A2': '[2][2]frontend.Variable'}[kind]
                 lines.append('\t%s %s%s' % (fname, gotype, gtag))
                 p = path + '.' + fname
                 if kind in ('SL2', 'SL0'):
                     alloc.append('%s = make([]frontend.Variable, %d)' % (p, 2 if kind == 'SL2' else 0))
+                if kind == 'SLSL':
+                    alloc.append('%s = [][]frontend.Variable{make([]frontend.Variable, 2), make([]frontend.Variable, 2)}' % p)
+                if kind == 'SLA2':
+                    alloc.append('%s = make([][2]frontend.Variable, 2)' % p)
                 if not omitted:
                     v = vis or 'secret'
                     if kind == 'V':
@@ -133,6 +140,10 @@ class Gen:
                     elif kind in ('A2', 'SL2'):
                         leaves.append((p + '[0]', v))
                         leaves.append((p + '[1]', v))
+                    elif kind in ('SLSL', 'SLA2', 'A2A2'):
+                        for a in range(2):
+                            for b in range(2):
+                                leaves.append((p + '[%d][%d]' % (a, b), v))
         if declare:
             self.types.append('type %s struct {\n%s\n}\n' % (tname, '\n'.join(lines)))
         return conflict
